@@ -19,6 +19,9 @@ package main
 //   sd                        Shutdown(); every later op answers `after-shutdown` (not executed)
 //   rp <now> <n:dur,…|->      one reaper tick at base + now h with per-member timeout overrides
 //   ls                        LocalState(false), decoded
+//   jl <lt> <0|1>             a leave claim (± prune) about the LOCAL node delivered WHILE a Join() call is in
+//                             flight: Join to a local TCP listener that accepts and never answers (the call
+//                             blocks for TCPTimeout and contacts nobody, so it broadcasts nothing itself)
 // After every op the harness waits for a refuting join goroutine (if the op started one),
 // drains EventCh and the intent queue, and prints the node's observable state.
 
@@ -77,6 +80,7 @@ func newNodeInst() (*nodeInst, error) {
 	conf.TombstoneTimeout = nodeTombstone * time.Hour
 	conf.RecentIntentTimeout = nodeIntentTO*time.Hour + 30*time.Minute
 	conf.DisableCoordinates = true
+	conf.MemberlistConfig.TCPTimeout = 400 * time.Millisecond // how long a Join to a mute peer stays in flight (op jl)
 	ov := &nodeOverride{m: map[string]time.Duration{}}
 	conf.ReconnectTimeoutOverride = ov
 	ch := make(chan serf.Event, 1<<14)
@@ -422,6 +426,63 @@ func (ni *nodeInst) exec(o string) string {
 			}
 		}
 		return fmt.Sprintf("refute2 self=%s joins=%d maxjoin=%d", self, joins, maxJoin)
+	case f[0] == "jl" && len(f) == 3:
+		lt, err := strconv.ParseUint(f[1], 10, 64)
+		if err != nil || (f[2] != "0" && f[2] != "1") {
+			return "bad-op"
+		}
+		ln, lerr := net.Listen("tcp", "127.0.0.1:0")
+		if lerr != nil {
+			return "listen-failed"
+		}
+		accepted := make(chan net.Conn, 8)
+		go func() {
+			for {
+				c, err := ln.Accept()
+				if err != nil {
+					return
+				}
+				accepted <- c // held open, never answered
+			}
+		}()
+		done := make(chan struct{})
+		go func() {
+			_, _ = ni.s.Join([]string{ln.Addr().String()}, false)
+			close(done)
+		}()
+		var held []net.Conn
+		inFlight := false
+		select { // the Join is in flight once its push/pull connection has been accepted
+		case c := <-accepted:
+			held = append(held, c)
+			inFlight = true
+		case <-done: // Join refused (node not alive any more): the claim is delivered anyway
+		case <-time.After(3 * time.Second):
+		}
+		expect := ni.selfClaimNewer(lt)
+		dg.NotifyMsg(serf.VerifEncodeLeave(lt, nodeSelf, f[2] == "1"))
+		select {
+		case <-done:
+		case <-time.After(15 * time.Second):
+			timedOut = true
+		}
+		_ = ln.Close()
+		for _, c := range held {
+			_ = c.Close()
+		}
+		for {
+			select {
+			case c := <-accepted:
+				_ = c.Close()
+				continue
+			default:
+			}
+			break
+		}
+		_ = inFlight
+		if expect {
+			timedOut = !ni.waitQueued(1) || timedOut
+		}
 	case f[0] == "mg" && len(f) == 4:
 		lt, err := strconv.ParseUint(f[1], 10, 64)
 		if err != nil {
